@@ -774,3 +774,26 @@ package swap
 //@ stepinv getSwapOutReceiverStates Admission @C11 allowlisted: result == Event_ActionSucceeded ==> (uf("peerAllowed", true, swap.PeerNodeId) && !uf("peerSuspicious", true, swap.PeerNodeId))
 //@ stepinv getSwapOutReceiverStates Admission @C11 own-chain: result == Event_ActionSucceeded ==> ((swap.GetAsset() == "" || swap.GetAsset() == uf("walletAsset", "", swap.GetChain())) && (swap.GetNetwork() == "" || swap.GetNetwork() == uf("walletNetwork", "", swap.GetChain())))
 //@ stepinv getSwapOutReceiverStates Admission @C11 funded: result == Event_ActionSucceeded ==> mi(ghost.walletBalance) >= mi(swap.GetAmount()) + mi(ghost.feeEstimate)
+
+// ---------------------------------------------------------------------------
+// C29: HasActiveSwaps (what SafeUpgrade asks) answers false only if every
+// persisted swap is terminal
+// ---------------------------------------------------------------------------
+//@ ghost storedSwaps []*SwapStateMachine
+//@ interface Store.ListAll
+//@ ensures result1 == nil ==> (result0 == ghost.storedSwaps && len(result0) == len(ghost.storedSwaps))
+//@ assigns nothing
+
+//@ func (*SwapService).HasActiveSwaps
+//@ property C29
+//@ forall j int
+//@ requires s != nil && s.swapServices != nil
+//@ loop 0 invariant @C29 seen-finished: (0 <= j && j < rangeindex + 1 && j < len(ghost.storedSwaps)) ==> ghost.storedSwaps[j].IsFinished()
+//@ ensures @C29 all-terminal: (result1 == nil && !result0 && 0 <= j && j < len(ghost.storedSwaps)) ==> ghost.storedSwaps[j].IsFinished()
+//@ assigns nothing
+
+// a swap counts as finished exactly in the four terminal states
+//@ func (*SwapStateMachine).IsFinished
+//@ property C29
+//@ ensures @C29 terminal-states: result == (s.Current == State_ClaimedCsv || s.Current == State_SwapCanceled || s.Current == State_ClaimedPreimage || s.Current == State_ClaimedCoop)
+//@ assigns nothing
